@@ -285,6 +285,36 @@ func facts(repo, goroot string) []fact {
 	} else {
 		add("renewContextCalls", bad("not found"))
 	}
+	// ---- routing between the linked service and the local database
+	for _, fn := range []string{"revoke", "IsRevoked", "certificateRecordsProvisioner", "unsafeLoadProvisionerFromDatabase", "storeRenewedCertificate"} {
+		fd := findFunc(auth, "Authority", fn)
+		if fd == nil {
+			add("storeRouting:"+fn, bad("not found"))
+			continue
+		}
+		// every `if` that asks a.adminDB for an optional operation: its condition, and any guard in front
+		var conds []string
+		ast.Inspect(fd.Body, func(n ast.Node) bool {
+			if st, ok := n.(*ast.IfStmt); ok {
+				text := src(st.Cond)
+				if st.Init != nil {
+					init := src(st.Init)
+					if strings.Contains(init, "a.adminDB.(") || strings.Contains(init, "a.db.(") {
+						// keep which store is asked and the condition, not the interface's method list
+						which := "adminDB"
+						if strings.Contains(init, "a.db.(") {
+							which = "db"
+						}
+						conds = append(conds, which+"?"+text)
+					}
+				} else if strings.Contains(text, "adminDB") {
+					conds = append(conds, "guard:"+text)
+				}
+			}
+			return true
+		})
+		add("storeRouting:"+fn, join(conds))
+	}
 	// ---- claims conversion glue (ca.json <-> linkedca)
 	if fd := findFunc(auth, "", "claimsToLinkedca"); fd == nil {
 		add("claimsToLinkedcaFlow", bad("not found"))
